@@ -222,6 +222,7 @@ def run(rep, facts, tier):
     rule_04_13(rep, fx)
     from rules import builtsent
     builtsent.run_rule(rep, fx, 'R04.14')
+    builtsent.run_wire(rep, fx, 'R04.15')
     # (b) a recorded GAP is always sent: on `!no_longer_relevant.is_empty()` or `all_irrelevant_before.is_some()` the message goes out
     alle = list(switch_edges(rw, fx, og))
     must_send = [(s_, t_) for s_, t_, cond, lab in alle if (cond[0] == 'call' and cond[1].endswith('::is_empty') and lab is False and term_has(cond, lambda x: x[0] == 'call' and x[1].endswith('BTreeSet::new')))
